@@ -69,7 +69,7 @@ def run(ctx):
         d = defs("1..2048", tla_set(full), mal, False, emit_sb, sample, [0])
         workers, timeout = 4, 600
     else:
-        mal = set(bnd) | set(rnd.sample(range(1, MAX_SIGNERS + 1), 30))
+        mal = set(range(1, MAX_SIGNERS + 1))
         sample = rnd.sample(range(0, MAX_DLEN + 1), 300)
         d = defs("1..2048", "1..2048", mal, True, all_classes, sample,
                  [0, 1, 32702, 32718, 32742, 32758])
